@@ -365,7 +365,8 @@ Definition expand_tied_ballot (b : ballot) : res (list ballot) :=
 
 Definition resolve_profile_ties (p : profile) : res profile :=
   let! bss := rmap expand_tied_ballot (ballots p) in
-  let! q := mk_profile (concat bss) [] in
+  (* since the fix "resolve_profile_ties keeps the profile's candidate list" *)
+  let! q := mk_profile (concat bss) (cands p) in
   ok (condense q).
 
 (* ---------- ballots_by_first_cand ---------- *)
